@@ -248,3 +248,94 @@ def load (realspec maxbucket : Int) : List Int → Except String Tree
   | _ => .error "Bad header"
 
 end GeoVerif.VPTree
+
+/-! ## `Save(os, true)` / `Load(is, true)`: the binary layout on bytes (little endian, `int` = 32 bit, `dist_t` = 64 bit) -/
+namespace GeoVerif.VPTree
+
+/-- `w` little-endian bytes of the two's-complement representation of `x` -/
+def encLE : Nat → Int → List Nat
+  | 0, _ => []
+  | w + 1, x => (x % 256).toNat :: encLE w (x / 256)
+
+/-- value of little-endian bytes as an unsigned number -/
+def decLEu : List Nat → Nat
+  | [] => 0
+  | b :: bs => b + 256 * decLEu bs
+
+/-- read `w` bytes as a signed two's-complement number -/
+def readLE (w : Nat) (bs : List Nat) : Option (Int × List Nat) :=
+  if bs.length < w then none else
+  let u := decLEu (bs.take w)
+  some ((if u < 2 ^ (8 * w - 1) then (u : Int) else (u : Int) - 2 ^ (8 * w)), bs.drop w)
+
+/-- "NearestNeighbor_" -/
+def magic : List Nat := [78, 101, 97, 114, 101, 115, 116, 78, 101, 105, 103, 104, 98, 111, 114, 95]
+
+def encInts (w : Nat) : List Int → List Nat
+  | [] => []
+  | x :: xs => encLE w x ++ encInts w xs
+
+def saveNodeBin : Node → List Nat
+  | .inner v lo0 up0 c0 lo1 up1 c1 => encLE 4 (v : Int) ++ encInts 8 [lo0, lo1, up0, up1] ++ encInts 4 [c0, c1]
+  | .leaf ls => encLE 4 (-1) ++ encInts 4 ls
+
+def saveNodesBin : List Node → List Nat
+  | [] => []
+  | n :: ns => saveNodeBin n ++ saveNodesBin ns
+
+def saveBin (realspec : Int) (t : Tree) : List Nat :=
+  magic ++ encInts 4 [version, realspec, t.bucket, t.numpoints, (t.nodes.length : Int), t.cost] ++ saveNodesBin t.nodes
+
+def readInts (w : Nat) : Nat → List Nat → Option (List Int × List Nat)
+  | 0, bs => some ([], bs)
+  | m + 1, bs =>
+    match readLE w bs with
+    | none => none
+    | some (x, rest) =>
+      match readInts w m rest with
+      | none => none
+      | some (xs, rest') => some (x :: xs, rest')
+
+/-- a short read leaves the fields unset in C++ (the stream state is not tested in binary mode); the model rejects -/
+def loadNodeBin (bucket : Nat) (bs : List Nat) : Except String (Node × List Nat) :=
+  match readLE 4 bs with
+  | none => .error "short read"
+  | some (idx, rest) =>
+    if idx ≥ 0 then
+      match readInts 8 4 rest with
+      | some ([lo0, lo1, up0, up1], rest1) =>
+        match readInts 4 2 rest1 with
+        | some ([c0, c1], rest2) => .ok (.inner idx.toNat lo0 up0 c0 lo1 up1 c1, rest2)
+        | _ => .error "short read"
+      | _ => .error "short read"
+    else if idx != -1 then .error "Bad index"
+    else match readInts 4 bucket rest with
+      | some (ls, rest1) => .ok (.leaf ls, rest1)
+      | none => .error "short read"
+
+def loadNodesBin (bucket : Nat) (numpoints : Int) : Nat → Nat → List Nat → Except String (List Node)
+  | 0, _, _ => .ok []
+  | m + 1, i, bs =>
+    match loadNodeBin bucket bs with
+    | .error e => .error e
+    | .ok (node, rest) =>
+      if !(nodeCheck numpoints (i : Int) node) then .error "Bad node" else
+      match loadNodesBin bucket numpoints m (i + 1) rest with
+      | .error e => .error e
+      | .ok ns => .ok (node :: ns)
+
+def loadBin (realspec maxbucket : Int) (bs : List Nat) : Except String Tree :=
+  if bs.take 16 != magic then .error "Bad ID" else
+  match readInts 4 6 (bs.drop 16) with
+  | some ([version1, realspec1, bucket, numpoints, treesize, cost], rest) =>
+    if version1 != version then .error "Incompatible version"
+    else if realspec1 != realspec then .error "Different dist_t types"
+    else if !(0 ≤ bucket && bucket ≤ maxbucket) then .error "Bad bucket size"
+    else if !(0 ≤ treesize && treesize ≤ numpoints) then .error "Bad number of points or tree size"
+    else if !(0 ≤ cost) then .error "Bad value for cost"
+    else match loadNodesBin bucket.toNat numpoints treesize.toNat 0 rest with
+      | .error e => .error e
+      | .ok ns => .ok { bucket := bucket, numpoints := numpoints, cost := cost, nodes := ns }
+  | _ => .error "short read"
+
+end GeoVerif.VPTree
